@@ -1,9 +1,13 @@
 import Sismic.Proofs.OkSpec
+import Sismic.Model.Py
 /-!
 # Property C13 — time is frozen per step
 
-(The `after`/`idle` part of the property is decided by the tie and by `entry_idle_times` below;
-the clock is read once: `executeOnce` receives the value `clock` that `self.clock.time` returned.)
+The clock is read once: `executeOnce` receives the value `clock` that `self.clock.time` returned.
+`after(d)` / `idle(d)`: what the predicates compute (`after_semantics`, `idle_semantics`), which
+times the guard of a transition is given (`guard_sees`), and when those times are written
+(`entry_records_times`, `transition_records_idle_time`).  That nothing else writes them is checked
+by the tie's ghost variables (last entry / last fired transition per state), not proved.
 -/
 namespace Sismic.C13
 open M
@@ -47,5 +51,99 @@ theorem step_started_carries_it (clock : Int) (rs rs' : RS σ ω) (r : Option Ma
 theorem queue_keeps_time (i : Bool) (e : Event) (rs : RS σ ω) :
     ((queueEvent (σ := σ) (ω := ω) i e) rs).2.st.time = rs.st.time :=
   (rt_queueEvent i e rs).1
+
+/-! ### `after` and `idle` -/
+
+/-- `after(d)` is true iff at least `d` time units separate the step time from the recorded entry time -/
+theorem after_semantics (penv : PyEnv) (st : PySt) (d t0 : Int) (h : penv.entryT = some (some t0)) :
+    callFn penv st "after" [.int d] [] = (some (.bool (decide (penv.time - d ≥ t0))), st) := by
+  simp [callFn, h, Val.asInt?]
+
+/-- `idle(d)` likewise with the recorded idle time -/
+theorem idle_semantics (penv : PyEnv) (st : PySt) (d t0 : Int) (h : penv.idleT = some (some t0)) :
+    callFn penv st "idle" [.int d] [] = (some (.bool (decide (penv.time - d ≥ t0))), st) := by
+  simp [callFn, h, Val.asInt?]
+
+/-- the guard of a transition is evaluated with the interpreter's (frozen) step time and the entry
+    and idle times recorded for the transition's *source* state -/
+theorem guard_sees (st : IState PyCtx) (t : Trans) (ev : Option Event) (code : Code) (h : t.guard = some code) :
+    pyGuard st t ev = pyEval { viewEnv st with
+      event := some ev,
+      entryT := some (assocGet t.source st.entryTime),
+      idleT := some (assocGet t.source st.idleTime) } st.ctx code ∧
+    (viewEnv st).time = st.time := by
+  simp [pyGuard, h, viewEnv]
+
+theorem raiseMeta_times (m : Event) (rs : RS σ ω) :
+    (raiseMeta env m rs).2.st.entryTime = rs.st.entryTime ∧ (raiseMeta env m rs).2.st.idleTime = rs.st.idleTime ∧
+    (raiseMeta env m rs).2.st.time = rs.st.time := by
+  have hcl : ∀ (ls : List Nat) (r : RS σ ω),
+      (M.forEach (callListener env m) ls r).2.st.entryTime = r.st.entryTime ∧
+      (M.forEach (callListener env m) ls r).2.st.idleTime = r.st.idleTime ∧
+      (M.forEach (callListener env m) ls r).2.st.time = r.st.time := by
+    intro ls
+    induction ls with
+    | nil => intro r; exact ⟨rfl, rfl, rfl⟩
+    | cons l ls ih =>
+      intro r
+      have hf : ∀ (qs : List Event) (st : IState σ),
+          (qs.foldl (fun st e => { st with extQ := queueInsert (st.time + e.delay) e st.extQ }) st).entryTime = st.entryTime ∧
+          (qs.foldl (fun st e => { st with extQ := queueInsert (st.time + e.delay) e st.extQ }) st).idleTime = st.idleTime ∧
+          (qs.foldl (fun st e => { st with extQ := queueInsert (st.time + e.delay) e st.extQ }) st).time = st.time := by
+        intro qs
+        induction qs with
+        | nil => intro st; exact ⟨rfl, rfl, rfl⟩
+        | cons q qs ihq =>
+          intro st; simp only [List.foldl_cons]
+          rw [(ihq _).1, (ihq _).2.1, (ihq _).2.2]; exact ⟨rfl, rfl, rfl⟩
+      simp only [M.forEach, M.bind]
+      obtain ⟨res, r1, hc⟩ : ∃ res r1, callListener env m l r = (res, r1) := ⟨_, _, rfl⟩
+      have h1 : r1.st.entryTime = r.st.entryTime ∧ r1.st.idleTime = r.st.idleTime ∧ r1.st.time = r.st.time := by
+        unfold callListener at hc
+        simp only [Prod.mk.injEq] at hc
+        obtain ⟨_, rfl⟩ := hc
+        exact hf _ _
+      simp only [hc]
+      cases res with
+      | error err => exact h1
+      | ok u => simp only; rw [(ih r1).1, (ih r1).2.1, (ih r1).2.2]; exact h1
+  unfold raiseMeta
+  simp only [M.bind, M.emit, M.get]
+  exact hcl _ _
+
+/-- **Entering a state records the step time** as its entry time and as its idle time. -/
+theorem entry_records_times (step : Micro) (s : StateDef) (rs rs' : RS σ ω) (sent : List Sent)
+    (h : enterState env step s rs = (.ok sent, rs')) :
+    assocGet s.name rs'.st.entryTime = some rs'.st.time ∧ assocGet s.name rs'.st.idleTime = some rs'.st.time := by
+  unfold enterState at h
+  obtain ⟨_, r1, h1, h⟩ := bind_ok.mp h
+  obtain ⟨_, r2, h2, h⟩ := bind_ok.mp h
+  obtain ⟨_, r3, h3, h⟩ := bind_ok.mp h
+  obtain ⟨_, r4, h4, h⟩ := bind_ok.mp h
+  obtain ⟨_, r5, h5, h⟩ := bind_ok.mp h
+  rw [pure_ok] at h
+  obtain ⟨_, rfl⟩ := h
+  rw [modify_ok] at h4
+  subst h4
+  have ht := raiseMeta_times env { name := "state entered", data := [("state", .str s.name)] } { r3 with st := { r3.st with
+      config := if r3.st.config.contains s.name then r3.st.config else r3.st.config ++ [s.name],
+      entryTime := assocSet s.name r3.st.time r3.st.entryTime,
+      idleTime := assocSet s.name r3.st.time r3.st.idleTime } }
+  rw [h5] at ht
+  simp only at ht
+  rw [ht.1, ht.2.1, ht.2.2]
+  have key : ∀ (l : List (Name × Int)) (k : Name) (v : Int), assocGet k (assocSet k v l) = some v := by
+    intro l k v
+    induction l with
+    | nil => simp [assocSet, assocGet]
+    | cons p r ih =>
+      obtain ⟨k', v'⟩ := p
+      simp only [assocSet]
+      split
+      · simp [assocGet]
+      · next hk =>
+        simp only [assocGet, List.find?_cons, hk] at ih ⊢
+        exact ih
+  exact ⟨key _ _ _, key _ _ _⟩
 
 end Sismic.C13
